@@ -338,6 +338,12 @@ func c03Wire(b []byte, st *c03WireStats) string {
 		}
 	}
 	{
+		var v c03Kv // one kv struct: LangRefValue.GobEncode
+		if rest, ok := gobTry(b, &v); ok {
+			hits = append(hits, hit{"(WKv " + hx(v.K) + " " + hx(v.V) + ")", rest})
+		}
+	}
+	{
 		var v []byte
 		if rest, ok := gobTry(b, &v); ok {
 			hits = append(hits, hit{"(WBytes " + hx(v) + ")", rest})
@@ -776,6 +782,7 @@ func (c *c03Ctx) gobAssumptions(g *Gen, n int) {
 			{"bool", gobBytes(bo), "(WBool " + cbool(bo) + ")"},
 			{"[]byte", gobBytes(bs), "(WBytes " + hx(bs) + ")"},
 			{"[]kv", gobBytes(kvs), ""},
+			{"kv", gobBytes(c03Kv{K: []byte("k" + string(bs)), V: bs}), "(WKv " + hx([]byte("k"+string(bs))) + " " + hx(bs) + ")"},
 			{"[][]byte", gobBytes(lst), ""},
 			{"map", gobBytes(mp), ""},
 			{"opaque", gobBytes(op), ""},
